@@ -254,6 +254,11 @@ func (cr *convRun) step(i int, tok string) {
 		out, enc, ch, toSend, err := me.c.Receive([]byte("?OTRv2?"))
 		cr.outs = append(cr.outs, showRecv(me.c, out, enc, ch, toSend, err))
 		queue(peer, toSend, false)
+	case 'x': // bytes injected by a network attacker
+		me.c.Rand = hx.NewRand(mix(cr.seed, i))
+		out, enc, ch, toSend, err := me.c.Receive(hx.UnHex(f[1]))
+		cr.outs = append(cr.outs, showRecv(me.c, out, enc, ch, toSend, err))
+		queue(peer, toSend, false)
 	case 'd':
 		if len(me.inbox) == 0 {
 			cr.outs = append(cr.outs, "-")
@@ -1045,12 +1050,84 @@ func genBurst(g *hx.Gen) {
 	}
 }
 
+// forgedData: a structurally valid data message with arbitrary key ids and an all-zero MAC.
+func forgedData(sender, recipient uint32) []byte {
+	m := []byte{0, 2, 3, 0}
+	m = append(m, u32(int(sender))...)
+	m = append(m, u32(int(recipient))...)
+	m = append(m, 0, 0, 0, 1, 2)
+	m = append(m, 0, 0, 0, 0, 0, 0, 0, 1)
+	m = append(m, 0, 0, 0, 1, 0x41)
+	m = append(m, make([]byte, 20)...)
+	m = append(m, 0, 0, 0, 0)
+	return frame(m)
+}
+
+// genAttack: the key-slot exhaustion attack of the defect fixed in af2a104 and variations of it: a
+// plaintext query injected into an encrypted session, forged data messages (no valid MAC) that make
+// calcDataKeys allocate slots, the re-AKE completing, more forged messages, crossing SMP starts.
+// Fixed code: no panic, and the genuine messages that follow are delivered.
+func genAttack(g *hx.Gen, n int) {
+	r := g.R
+	for i := 0; i < n; i++ {
+		seed := r.U64()
+		var toks []string
+		add := func(t ...string) { toks = append(toks, t...) }
+		inj := func(to string, b []byte) {
+			dg := "-"
+			if string(b) == "?OTRv2?" {
+				dg = hx.Hex(commitDigest(mix(seed, len(toks))))
+			}
+			add(fmt.Sprintf("x%s.%s.%s", to, hx.Hex(b), dg))
+		}
+		v := r.PickStr("a", "b") // victim
+		o := map[string]string{"a": "b", "b": "a"}[v]
+		add(fmt.Sprintf("q%s.%s", v, hx.Hex(commitDigest(mix(seed, 0)))))
+		for j := 0; j < 4; j++ {
+			add("da", "db")
+		}
+		for j := r.Range(1, 3); j > 0; j-- {
+			add("s"+o+"."+hx.Hex([]byte("o")), "d"+v, "s"+v+"."+hx.Hex([]byte("v")), "d"+o)
+		}
+		exact := i == 0 || r.Chance(1, 3)
+		inj(v, []byte("?OTRv2?"))
+		for _, their := range []uint32{1, 2, 3, 4, 5} {
+			my := uint32(0xffffffff)
+			if !exact && r.Chance(1, 3) {
+				my = uint32(r.Intn(3))
+			}
+			inj(v, forgedData(their, my))
+		}
+		for j := 0; j < 4; j++ {
+			add("da", "db")
+		}
+		add(fmt.Sprintf("m%s.-.%s", v, hx.Hex([]byte("sv"))))
+		for k := r.Range(1, 3); k > 0; k-- {
+			s, m := uint32(1), uint32(2)
+			if !exact {
+				s, m = uint32(r.Range(0, 3)), uint32(r.Range(0, 3))
+			}
+			inj(v, forgedData(s, m))
+		}
+		add(fmt.Sprintf("m%s.-.%s", o, hx.Hex([]byte("so"))), "d"+v)
+		for j := 0; j < 3; j++ {
+			add("da", "db")
+		}
+		for j := 0; j < 3; j++ {
+			add("s"+o+"."+hx.Hex([]byte("after")), "d"+v, "s"+v+"."+hx.Hex([]byte("after2")), "d"+o)
+		}
+		g.Stat("conv.slot-attack")
+		g.Emit("conv seed=%d fa=0 fb=0 script=%s", seed, strings.Join(toks, ","))
+	}
+}
+
 func gen(g *hx.Gen) {
 	genEnc(g, g.Count(1000, 30000))
 	genFrag(g, g.Count(1500, 60000))
 	genRecv(g, g.Count(2500, 80000))
 	genConv(g, g.Count(120, 3000))
 	genBurst(g)
+	genAttack(g, g.Count(8, 300))
 	genMut(g, g.Count(800, 60000))
 }
 
